@@ -98,8 +98,9 @@ class BiLinearForm(_Form):
                 # sum on gauss points
                 values_e = (values_e_pg * dX_e_pg).integrate()
 
-                # add data (row = test function v, column = trial function u)
-                data[:, j, i] = values_e
+                # add data (row = test function v, column = trial function u),
+                # values_e is a (Ne,) array (e.g. u.dot(v)) or a (Ne, 1) array (e.g. u * v for scalar fields)
+                data[:, j, i] = values_e.reshape(-1)
 
         return data
 
